@@ -371,15 +371,34 @@ def part_subclass(mode):
     eth = Coin.new_unit('ETH', 'Ether', 6)
     rate = ExchangeRate(btc, 1, eth, O.dec('D:16.482536'))
     rv = O.fr(rate.rate)
+    # rates between a currency of the sub-class and one of Money itself, in
+    # both directions: the result is money of the resulting currency's class
+    eur = Money.register_currency('EUR')
+    xrate = ExchangeRate(btc, 1, eur, O.dec('D:50123.45'))
+    xv = O.fr(xrate.rate)
+    yrate = ExchangeRate(eur, 100, eth, O.dec('D:0.0375'))
+    yv = O.fr(yrate.rate)
     for a in (F(1, 2), F(-1, 3), F(0), F(123456789, 100000000), F(10 ** 6)):
         m = Coin(a, btc)
         sa = O.fr(m.amount)
         e = Coin(a, eth)
         se = O.fr(e.amount)
+        me = Money(a, eur)
+        sm = O.fr(me.amount)
         for form, f, want, unit, q in (
                 ('m*r', lambda: m * rate, sa * rv, eth, F(1, 10 ** 6)),
                 ('r*m', lambda: rate * m, sa * rv, eth, F(1, 10 ** 6)),
-                ('m/r', lambda: e / rate, se / rv, btc, F(1, 10 ** 8))):
+                ('m/r', lambda: e / rate, se / rv, btc, F(1, 10 ** 8)),
+                ('cross-class:m*r', lambda: m * xrate, sa * xv, eur,
+                 F(1, 100)),
+                ('cross-class:r*m', lambda: xrate * m, sa * xv, eur,
+                 F(1, 100)),
+                ('cross-class:m/r', lambda: me / xrate, sm / xv, btc,
+                 F(1, 10 ** 8)),
+                ('cross-class:m*r', lambda: me * yrate, sm * yv, eth,
+                 F(1, 10 ** 6)),
+                ('cross-class:m/r', lambda: e / yrate, se / yv, eur,
+                 F(1, 100))):
             st.paths += 1
             st.transitions += 1
             st.evaluations += 1
@@ -389,13 +408,15 @@ def part_subclass(mode):
             except Exception as exc:
                 r, err = None, exc
             exp = O.round_to(want, q, mode)
-            if err is not None or type(r) is not Coin or r.unit is not unit \
+            rcls = Money if unit is eur else Coin
+            if err is not None or type(r) is not rcls or r.unit is not unit \
                     or O.fr(r.amount) != exp:
                 shown = repr(r) if err is None else repr(err)
                 st.violation(f'C10:money-subclass:{form}',
-                             f"[{mode}] {form} with {a} in a sub-class of "
-                             f"Money and the rate {rate!r}: {shown}, "
-                             f"expected Coin {exp} {unit.symbol}",
+                             f"[{mode}] {form} with {a} and a rate between "
+                             "currencies of a sub-class of Money (BTC, ETH) "
+                             f"or of Money (EUR): {shown}, "
+                             f"expected {rcls.__name__} {exp} {unit.symbol}",
                              {'subclass': mode})
     return st
 
